@@ -112,6 +112,7 @@ class SqlSem:
         self.db = db
         self.dialect = dialect
         self.pre = pre            # precondition sink (only for things SQL leaves undefined)
+        self.nondet = []          # conditions under which the SQL result is determined (no ties among the rows an ORDER BY .. LIMIT chooses from)
         self.result_order = None
         self.notes = set()
 
@@ -256,6 +257,10 @@ class SqlSem:
             if order is None:
                 raise Unsupported("LIMIT without ORDER BY (any rows are correct)")
             rk = ranks([x.present for x in rows], order[1], order[0])
+            # rows that tie on every ORDER BY key: which of them LIMIT keeps is the engine's choice
+            for i_ in range(len(rows)):
+                for j_ in range(i_ + 1, len(rows)):
+                    self.nondet.append(bnot(band(rows[i_].present, rows[j_].present, same_row(order[1][i_], order[1][j_]))))
             new = []
             off = offset or 0
             for i, x in enumerate(rows):
